@@ -239,9 +239,12 @@ func (s *scanner) consumeIfComment(ch rune) bool {
 
 func (s *scanner) skipToEndOfComment() {
 	for {
-		if ch := s.read(); ch == '*' {
+		if ch := s.read(); ch == eof {
+			// Unterminated comment
+			return
+		} else if ch == '*' {
 			for {
-				if ch := s.read(); ch == '/' {
+				if ch := s.read(); ch == '/' || ch == eof {
 					return
 				}
 			}
